@@ -17,6 +17,7 @@ class H:
         self.f = P.method('validator/level_validate.rs', fname, nargs=nargs)
         ctx.use(self.f)
         self.ex = ex = ctx.new_exec('core')
+        ex.havoc_unknown = True     # callees this module does not know (e.g. introduced by a change) return arbitrary values; the native battery decides
         self.subs = {}
         self.MAX = ex.fresh_int('u32', 'max_level')
         self.IS_ACTION = z3.Bool('literal_is_the_action')
@@ -41,8 +42,11 @@ class H:
             d = s['data']
             ent = some(Agg('variant', TY, 'Entity', [Agg('variant', 'validator::types::EntityKind', 'Entity', [Opaque('EntityLUB', 'lub')])]))
             rec = some(Agg('variant', TY, 'Record', [Opaque('Attributes', 'attrs'), Opaque('OpenTag', 'open')]))
-            return [([d == 0], ex_.new_cell(st, ent, 'ty')), ([d == 1], ex_.new_cell(st, rec, 'ty')), ([d == 2], ex_.new_cell(st, none(), 'ty'))]
-        ex.stub(r'Expr::<.*>::data$', data, 'Expr::data (the type annotation): entity-typed | record-typed | anything else')
+            tru = some(Agg('variant', TY, 'Bool', [Agg('variant', 'validator::types::BoolType', 'True', [])]))
+            fls = some(Agg('variant', TY, 'Bool', [Agg('variant', 'validator::types::BoolType', 'False', [])]))
+            return [([d == 0], ex_.new_cell(st, ent, 'ty')), ([d == 1], ex_.new_cell(st, rec, 'ty')), ([d == 2], ex_.new_cell(st, none(), 'ty')), ([d == 3], ex_.new_cell(st, tru, 'ty')), ([d == 4], ex_.new_cell(st, fls, 'ty'))]
+        ex.stub(r'Expr::<.*>::data$', data, 'Expr::data (the type annotation): entity-typed | record-typed | none | singleton True | singleton False')
+        ex.stub(r'(EntityUID|EntityType)::is_action$', lambda ex_, st, c, A: BoolV(z3.Bool('literal_has_an_action_type')), 'EntityUID / EntityType::is_action: free boolean')
         ex.stub(r'LevelChecker::<.*>::check_expr_level$', lambda ex_, st, c, A: UNIT, 'recursive check_expr_level on a child (logged)')
 
         def target(ex_, st, c, A):
@@ -75,7 +79,7 @@ class H:
     def sub(self, name):
         e = Opaque('ast::expr::Expr<Option<Type>>', name)
         s = {'name': name, 'expr': e, 'arc': Agg('struct', 'Arc', None, [e], ('inner',)), 'data': z3.Int(f'data_{name}'), 'level': self.ex.fresh_int('u32', f'level_{name}')}
-        self.ex.invariants += [z3.And(s['data'] >= 0, s['data'] <= 2), s['level'].t <= 1000]
+        self.ex.invariants += [z3.And(s['data'] >= 0, s['data'] <= 4), s['level'].t <= 1000]
         self.subs[name] = s
         self.by_id[e.id] = s
         return s
@@ -122,10 +126,26 @@ BATTERY = [('principal.name == "x"', 1), ('principal.manager.name == "x"', 2), (
            ('principal in [principal.manager.manager]', 2), ('true', 0)]
 
 
+SCHEMA2 = ('entity User in [Group] { manager: User, name: String, info: { boss: User, n: Long } } tags String; entity Group { owner: User }; entity Photo { owner: User }; '
+           'action write; action view, edit in [write] appliesTo { principal: User, resource: Photo, context: { who: User } };')
+# full policies over a schema with two actions that share all their types (and an action group): (policy, minimal accepted level or None)
+BATTERY2 = [('permit(principal, action == Action::"edit", resource) when { principal.manager.manager.name == "x" };', 3),
+            ('permit(principal, action == Action::"view", resource) when { principal.manager.manager.name == "x" };', 3),
+            ('permit(principal, action, resource) when { action == Action::"edit" && principal.manager.manager.name == "x" };', 3),
+            ('permit(principal, action, resource) when { action == Action::"view" && principal.manager.manager.name == "x" };', 3),
+            ('permit(principal, action, resource) when { Action::"edit" in Action::"write" };', None),
+            ('permit(principal, action == Action::"edit", resource) when { Action::"view" in Action::"write" };', None),
+            ('permit(principal, action, resource) when { action in Action::"write" };', 1),
+            ('permit(principal, action, resource) when { (if (principal.manager.manager.name == "x" || true) then principal.name else "y") == "x" };', 3),
+            ('permit(principal, action, resource) when { (if (true || principal.manager.manager.name == "x") then principal.name else "y") == "x" };', 1),
+            ('permit(principal, action, resource) when { (principal.manager.manager.name == "x" || true) && principal.name == "x" };', 3)]
+
+
 def battery_replay(ctx, name, why):
     """native confirmation through cedar_policy::Validator::validate_with_level: each policy of the battery must pass exactly from its RFC-76 level upwards"""
-    for cond, lvl in BATTERY:
-        a = ctx.native.ask({'op': 'validate_level', 'policy': W % cond})
+    probes = [({'op': 'validate_level', 'policy': W % cond}, cond, lvl) for cond, lvl in BATTERY] + [({'op': 'validate_level', 'policy': pol, 'schema': SCHEMA2}, pol, lvl) for pol, lvl in BATTERY2]
+    for rq, cond, lvl in probes:
+        a = ctx.native.ask(rq)
         if 'passes_at_level' not in a:
             return ctx.mismatch(name, f'validate_level failed on `{cond}`: {a}')
         want = [lvl is not None and n >= lvl for n in range(5)]
@@ -133,8 +153,76 @@ def battery_replay(ctx, name, why):
             return ctx.mismatch(name, f'battery policy `{cond}` does not typecheck')
         if a['passes_at_level'] != want:
             return ctx.violation(name, 'validator/level_validate.rs: level calculus', f'{why}; `{cond}` passes level validation at levels {a["passes_at_level"]} (index = max level 0..4), RFC 76 prescribes {want}',
-                                 {'op': 'validate_level', 'policy': W % cond, 'expected': want, 'got': a['passes_at_level']})
-    return ('unreplayed', f'{why}; but the battery of {len(BATTERY)} level-validation probes behaves as RFC 76 prescribes')
+                                 dict(rq, expected=want, got=a['passes_at_level']))
+    return ('unreplayed', f'{why}; but the battery of {len(probes)} level-validation probes behaves as RFC 76 prescribes')
+
+
+def battery_selftest(ctx):
+    return battery_replay(ctx, 'native battery', 'native level-validation battery')
+
+
+def driver_loop(ctx):
+    """Validator::validate_policy_with_level: every (request environment, typechecked policy) pair that did not fail typechecking is level-checked - with ITS environment"""
+    P = ctx.prog('core')
+    f = P.method('validator/level_validate.rs', 'validate_policy_with_level', nargs=4)
+    ctx.use(f)
+    ex = ctx.new_exec('core')
+    ex.havoc_unknown = True
+    ex.max_paths = 600
+    PC = 'validator::typecheck::PolicyCheck'
+    KIND = [z3.Int(f'check{i}_kind') for i in range(2)]           # 0 Success, 1 Irrelevant, 2 Fail
+    ex.invariants += [z3.And(k >= 0, k <= 2) for k in KIND]
+    envs = [Opaque("validator::types::RequestEnv<'_>", f'request environment {i}') for i in range(2)]
+    exprs = [Opaque('ast::expr::Expr<Option<Type>>', f'typed condition {i}') for i in range(2)]
+    ex.stub(r'Validator::validate_policy$', lambda ex_, st, c, A: Agg('tuple', None, None, [Opaque('iter', 'type errors'), Opaque('iter', 'warnings')]), 'Validator::validate_policy (errors / warnings, payload)')
+    ex.stub(r'Typechecker::<.*>::new$|Typechecker::new$', lambda ex_, st, c, A: Opaque('Typechecker', 'typechecker'), 'Typechecker::new')
+
+    def by_env(ex_, st, c, A):
+        # one alternative per combination of outcomes for two request environments
+        alts = []
+        for k0 in range(3):
+            for k1 in range(3):
+                items = []
+                for i, k in enumerate((k0, k1)):
+                    chk = [Agg('variant', PC, 'Success', [exprs[i]]), Agg('variant', PC, 'Irrelevant', [Opaque('Vec<ValidationError>', 'errs'), exprs[i]]), Agg('variant', PC, 'Fail', [Opaque('Vec<ValidationError>', 'errs')])][k]
+                    items.append(Agg('tuple', None, None, [envs[i], chk]))
+                alts.append(([KIND[0] == k0, KIND[1] == k1], Agg('struct', '~vec_iter', None, items)))
+        return alts
+    ex.stub(r'Typechecker::<.*>::typecheck_by_request_env$|Typechecker::typecheck_by_request_env$', by_env, 'typecheck_by_request_env: two request environments, each Success | Irrelevant | Fail with its typed condition')
+    ex.stub(r'Template::id$', lambda ex_, st, c, A: ex_.new_cell(st, Opaque('PolicyID', 'id'), 'id'), 'Template::id')
+    ex.stub(r'HashSet::<.*ValidationError>::new$', lambda ex_, st, c, A: Opaque('HashSet<ValidationError>', 'level errors'), 'HashSet::new (level errors)')
+
+    def cel(ex_, st, c, A):
+        e, env = A[1], A[2]
+        ie = {x.id: i for i, x in enumerate(exprs)}.get(getattr(_res(ex_, st, e), 'id', None))
+        iv = {x.id: i for i, x in enumerate(envs)}.get(getattr(_res(ex_, st, env), 'id', None))
+        st.notes.setdefault('checked', []).append((ie, iv))
+        return UNIT
+    ex.stub(r'LevelChecker::<.*>::check_expr_level$|LevelChecker::check_expr_level$', cel, 'check_expr_level(typed condition i, environment j): logged (own obligations per node kind)')
+    ex.stub(r' as Iterator>::chain::<', lambda ex_, st, c, A: Opaque('iter', 'all errors'), 'errors.chain(level errors) (payload)')
+    outs = ex.run(f, [Ref(0, ('local', 'V')), Ref(0, ('local', 'P')), Opaque('ValidationMode', 'mode'), ex.fresh_int('u32', 'max_level')], heap={'V': Opaque('validator::Validator', 'validator'), 'P': Opaque('ast::policy::Template', 'policy')})
+    ctx.absorb(ex)
+    nm = 'validate_policy_with_level'
+    ctx.panic_summary(nm, outs, ex)
+    rets = [o for o in outs if o.kind == 'ret']
+    for i, o in enumerate(rets):
+        got = sorted(o.st.notes.get('checked', []), key=str)
+        claims = []
+        for k0 in range(3):
+            for k1 in range(3):
+                want = sorted([(j, j) for j, k in enumerate((k0, k1)) if k != 2], key=str)
+                claims.append(z3.Implies(z3.And(KIND[0] == k0, KIND[1] == k1), z3.BoolVal(got == want)))
+        ctx.decide(f'{nm}/path{i}', o.pc + [z3.Not(z3.And(claims))], ex=ex, sample={'path_condition': [str(c) for c in o.pc][:4], 'level-checked (condition, environment)': [str(x) for x in got]} if i < 2 else None,
+                   on_sat=lambda m: battery_replay(ctx, nm, 'the level check is not run on every request environment that typechecks'))
+    ctx.decide(f'{nm}/paths-cover', [z3.Not(z3.Or([z3.And(o.pc) if o.pc else z3.BoolVal(True) for o in rets]))], ex=ex)
+    ctx.decide(f'{nm}/witness', [z3.Or([z3.And(o.pc) if o.pc else z3.BoolVal(True) for o in rets])], expect='sat', ex=ex)
+
+
+def _res(ex, st, v, n=8):
+    while isinstance(v, Ref) and n > 0:
+        v = ex.read(st, v.fid, v.place)
+        n -= 1
+    return v
 
 
 def binop(name):
@@ -202,7 +290,7 @@ def expr_level_nodes(ctx):
         def cases(h):
             d, L = h.subs['e']['data'], h.subs['e']['level'].t
             return [(z3.And(d == 0, L >= h.MAX.t), [('target', 'e', ())], ['maximum_level_exceeded'], None), (z3.And(d == 0, L < h.MAX.t), [('target', 'e', ())], [], None),
-                    (d == 1, [('expr', 'e')], [], None), (d == 2, [], ['internal_invariant_violation'], None)]
+                    (d == 1, [('expr', 'e')], [], None), (d >= 2, [], ['internal_invariant_violation'], None)]
         check_node(ctx, v, F, N, lambda h, v=v: Agg('variant', EK, v, [h.sub('e')['arc'], Opaque('SmolStr', 'attr')]), noargs, cases)
     check_node(ctx, 'Like', F, N, lambda h: Agg('variant', EK, 'Like', [h.sub('e')['arc'], Opaque('Pattern', 'pat')]), noargs, lambda h: [(T, [('expr', 'e')], [], None)])
     check_node(ctx, 'Is', F, N, lambda h: Agg('variant', EK, 'Is', [h.sub('e')['arc'], Opaque('EntityType', 'ty')]), noargs, lambda h: [(T, [('expr', 'e')], [], None)])
@@ -233,7 +321,7 @@ def target_level_nodes(ctx):
 
     def ga_cases(h):
         d, L = h.subs['e']['data'], h.subs['e']['level'].t
-        return [(d == 0, [('target', 'e', ('p0',))], [], L + 1), (d == 1, [('target', 'e', ('p0', 'attr'))], [], L), (d == 2, [], ['internal_invariant_violation'], Z)]
+        return [(d == 0, [('target', 'e', ('p0',))], [], L + 1), (d == 1, [('target', 'e', ('p0', 'attr'))], [], L), (d >= 2, [], ['internal_invariant_violation'], Z)]
     check_node(ctx, 'GetAttr', F, N, lambda h: Agg('variant', EK, 'GetAttr', [h.sub('e')['arc'], Opaque('SmolStr', 'attr')]), path1, ga_cases)
     check_node(ctx, 'BinaryApp GetTag', F, N, lambda h: Agg('variant', EK, 'BinaryApp', [binop('GetTag'), h.sub('arg1')['arc'], h.sub('arg2')['arc']]), path1,
                lambda h: [(T, [('target', 'arg1', ('p0',)), ('expr', 'arg2')], [], h.subs['arg1']['level'].t + 1)])
@@ -248,15 +336,17 @@ def target_level_nodes(ctx):
 
 
 def families(ctx):
-    return [('check_expr_level per node kind', lambda: expr_level_nodes(ctx)), ('check_entity_deref_target_level per node kind', lambda: target_level_nodes(ctx))]
+    return [('check_expr_level per node kind', lambda: expr_level_nodes(ctx)), ('check_entity_deref_target_level per node kind', lambda: target_level_nodes(ctx)),
+            ('validate_policy_with_level driver', lambda: driver_loop(ctx))]
 
 
 def run(ctx):
     for name, fn in families(ctx):
         ctx.guarded(name, fn)
-    ctx.bounds += ['one node of each kind with arbitrary child levels (<= 1000) and an arbitrary maximum (<= 1000); containers with two members; structural induction gives expressions of any depth']
+    ctx.guarded('native battery', lambda: battery_selftest(ctx))
+    ctx.bounds += ['validate_policy_with_level: two request environments, each Success | Irrelevant | Fail', 'one node of each kind with arbitrary child levels (<= 1000) and an arbitrary maximum (<= 1000); containers with two members; structural induction gives expressions of any depth']
     ctx.assumptions += ['recursive calls on children return arbitrary levels (logged); Expr::data (the typechecker annotation) is entity / record / other; the RFC-76 induction from the per-node calculus to '
-                        'slice sufficiency is a paper argument, NOT decided here; record-literal dereference targets (access-path lookup) and the loop of validate_with_level over request environments are not covered']
+                        'slice sufficiency is a paper argument, NOT decided here; record-literal dereference targets (access-path lookup) are not covered']
     return ctx.finish('Solver-decided per-node level calculus of LevelChecker::{check_expr_level, check_entity_deref_target_level}, executed from the MIR of the current tree: every child of every node kind is visited by the right '
                       'checker with the right access path, dereferences (. / has on entities, hasTag, getTag, in) report `maximum level exceeded` exactly when the target level >= the maximum (hence acceptance is monotone in the maximum), '
                       'attribute access on entities and getTag add one level, if-then-else takes the maximum, literals other than the action are rejected as dereference targets.')
